@@ -120,6 +120,13 @@ func runSeq(w *world, cfgName string, cfg core.TxPoolConfig, start string, seq [
 		if len(r.fails) > 0 {
 			return r
 		}
+		if cfgName == "default" {
+			if f, extended := orphanWitness(w, c, p, gasPrice, oi); extended {
+				r.fails = append(r.fails, f...)
+				r.trace += "witness-extension "
+				return r
+			}
+		}
 	}
 	return r
 }
@@ -163,6 +170,70 @@ func reinjected(w *world, c *chain, p *core.TxPool, old, nb *types.Block, gasPri
 		}
 	}
 	return fails
+}
+
+// orphanWitness: a transaction the pool still indexes (Get finds it) although it is neither pending nor
+// queued is not by itself something C15 forbids. It is the precursor of something C15 does forbid, so
+// the history is extended to the witness: a block that includes the transaction (with fillers for the
+// nonces below it) becomes the head and is then dropped by a reorganisation to an empty sibling; the
+// transaction, still valid there, must be pooled again. Returns extended=true when it changed heads.
+func orphanWitness(w *world, c *chain, p *core.TxPool, gasPrice *big.Int, oi int) (fails []string, extended bool) {
+	s := snap(p)
+	for i, tx := range w.txs {
+		h := tx.Hash()
+		if p.Get(h) == nil || s.has(h) {
+			continue
+		}
+		from, _ := types.Sender(w.env.Signer, tx)
+		fi := 0
+		if from == w.B {
+			fi = 1
+		}
+		head := c.CurrentBlock()
+		st, _ := c.StateAt(head.Root())
+		cn := st.GetNonce(from)
+		if tx.Nonce() < cn || tx.Nonce() > cn+3 || tx.Cost().Cmp(new(big.Int).Div(st.GetBalance(from), big.NewInt(4))) > 0 ||
+			tx.Gas() > head.GasLimit()/2 || tx.GasPrice().Cmp(gasPrice) < 0 {
+			continue // cannot be put into a block on this head / would not be valid for the pool afterwards
+		}
+		var blk, sib *types.Block
+		func() {
+			defer func() { recover() }()
+			bs, _ := w.env.Gen(head, chainkit.Faker(), 1, func(_ int, g *core.BlockGen) {
+				for n := cn; n < tx.Nonce(); n++ {
+					f, err := types.SignTx(types.NewTransaction(n, w.env.Addrs[2], big.NewInt(1), 21000, big.NewInt(200*gwei), nil), w.env.Signer, w.env.Keys[fi])
+					if err != nil {
+						panic(err)
+					}
+					g.AddTx(f)
+				}
+				g.AddTx(tx)
+			})
+			ss, _ := w.env.Gen(head, chainkit.Faker(), 1, func(_ int, g *core.BlockGen) { g.SetExtra([]byte{0x77}) })
+			blk, sib = bs[0], ss[0]
+		}()
+		if blk == nil || sib == nil {
+			continue
+		}
+		if c.extra == nil {
+			c.extra = map[common.Hash]*types.Block{}
+		}
+		c.extra[blk.Hash()], c.extra[sib.Hash()] = blk, sib
+		c.setHead(blk)
+		p.VerifReset(head.Header(), blk.Header())
+		c.setHead(sib)
+		p.VerifReset(blk.Header(), sib.Header())
+		after := snap(p)
+		if cur := after.find(from, tx.Nonce()); cur != nil && cur.Hash() != h {
+			return nil, true // slot legitimately taken by another transaction
+		}
+		if !after.has(h) {
+			fails = append(fails, fmt.Sprintf("after op %d transaction %s (nonce %d) stayed in the pool's index although it is neither pending nor queued; "+
+				"witness: a block including it became the head and was dropped by a reorganisation to an empty sibling - the transaction is still valid but was not pooled again: %s", oi, w.names[i], tx.Nonce(), after))
+		}
+		return fails, true
+	}
+	return nil, false
 }
 
 func depth(tier string) int {
